@@ -188,7 +188,7 @@ func (x *Exec) callStatic(st *State, fn *ssa.Function, args []Value, binds []Val
 			return
 		}
 	}
-	if fc != nil && (len(fc.Ensures)+len(fc.Requires) > 0 || fc.Flags["opaque"]) && !fc.Flags["inline"] {
+	if fc != nil && (fc.assumable()+len(fc.Requires) > 0 || fc.Flags["opaque"]) && !fc.Flags["inline"] {
 		x.applyContract(st, fn, fc, args, binds, pos, k)
 		return
 	}
@@ -257,9 +257,25 @@ func (x *Exec) pureAppAll(pd *PureDef, targs []*Term) []Value {
 }
 
 func (x *Exec) pureApp(pd *PureDef, args []*Term) *Term {
+	return pureAppTerm(pd, args)
+}
+
+func pureAppTerm(pd *PureDef, args []*Term) *Term {
 	if pd.inlineBody != nil && len(args) == len(pd.params) {
 		// small non-recursive definitions are substituted (keeps folding effective)
 		return substTerm(pd.inlineBody, pd.params, args)
+	}
+	if !pd.recursive && pd.body != nil && len(args) == len(pd.params) && pd.okName == "" {
+		allConst := len(args) > 0
+		for _, a := range args {
+			if !a.isConst() {
+				allConst = false
+			}
+		}
+		if allConst {
+			// constant arguments: evaluate the definition by substitution and folding
+			return substTerm(pd.body, pd.params, args)
+		}
 	}
 	return App(pd.name, pd.resSort, args...)
 }
@@ -446,8 +462,8 @@ func (x *Exec) applyContract(st *State, fn *ssa.Function, fc *FuncContract, args
 		}
 	}
 	for _, c := range fc.Ensures {
-		if mentionsEvents(c.Expr) {
-			continue
+		if mentionsEvents(c.Expr) || hasProp(c.Props, "FINDING") {
+			continue // a clause recorded as a known finding is never assumed
 		}
 		g, err := env.evalBool(c.Expr)
 		if err != nil {
@@ -458,6 +474,17 @@ func (x *Exec) applyContract(st *State, fn *ssa.Function, fc *FuncContract, args
 	}
 	x.recordEvent(st, eventNameOfFunc(fn), args, results)
 	k(st, results)
+}
+
+// assumable counts the ensures clauses callers may rely on.
+func (fc *FuncContract) assumable() int {
+	n := 0
+	for _, c := range fc.Ensures {
+		if !hasProp(c.Props, "FINDING") {
+			n++
+		}
+	}
+	return n
 }
 
 func eventNameOfFunc(fn *ssa.Function) string { return fn.Name() }
@@ -981,7 +1008,7 @@ func (x *Exec) checkParamContracts(st *State, callee *ssa.Function, fc *FuncCont
 			}
 			tenv.setResults(target, results)
 			for _, c := range tfc.Ensures {
-				if mentionsEvents(c.Expr) || mentionsOld(c.Expr) {
+				if mentionsEvents(c.Expr) || mentionsOld(c.Expr) || hasProp(c.Props, "FINDING") {
 					continue
 				}
 				if g, err := tenv.evalBool(c.Expr); err == nil {
